@@ -7,6 +7,7 @@ pub mod adapters;
 pub mod delta_roundtrip;
 pub mod deltaid;
 pub mod history;
+pub mod array_chain;
 pub mod merge;
 pub mod pack;
 pub mod patch;
@@ -16,6 +17,7 @@ pub mod tree;
 pub fn run(name: &str, thorough: bool, seed: u64) -> Option<Report> {
     match name {
         "merge_arrays" => Some(merge::run(thorough, seed)),
+        "array_chain" => Some(array_chain::run(thorough, seed)),
         "revision" => Some(revision::run(thorough, seed)),
         "tree" => Some(tree::run(thorough, seed)),
         "pack" => Some(pack::run(thorough, seed)),
@@ -31,6 +33,7 @@ pub fn run(name: &str, thorough: bool, seed: u64) -> Option<Report> {
 pub fn replay(name: &str, case: &Value) -> Value {
     match name {
         "merge_arrays" => merge::replay(case),
+        "array_chain" => array_chain::replay(case),
         "revision" => revision::replay(case),
         "tree" => tree::replay(case),
         "pack" => pack::replay(case),
